@@ -114,7 +114,8 @@ Fixpoint csv_to_sql (tys : list coltype) (srcs : list nat) (rec : list string) :
   end.
 
 (* ---- storage: one INSERT of one row ---- *)
-Inductive err_class := ErrMalformed | ErrColCount | ErrType | ErrIntRange | ErrTooLarge.
+Inductive err_class := ErrMalformed | ErrColCount | ErrType | ErrIntRange | ErrTooLarge
+                     | ErrColumns.   (* checkColumnList: unknown (ErrFieldNotFound) or repeated (ErrDuplicateColumn) name *)
 
 Inductive ins_result := InsOk (r : row) | InsErr (e : err_class).
 
@@ -175,9 +176,17 @@ Definition eff_cols (sch : schema) (cols : list string) : list string :=
 Definition build_row (sch : schema) (cols : list string) (vals : list value) : row :=
   map (fun fd => match tuple_get (fd_name fd) cols vals with Some v => v | None => VNull end) sch.
 
+(* relation.go checkColumnList: every name is a column of the table and occurs once *)
+Fixpoint cols_ok (names : list string) (cols seen : list string) : bool :=
+  match cols with
+  | [] => true
+  | c :: r => existsb (String.eqb c) names && negb (existsb (String.eqb c) seen) && cols_ok names r (c :: seen)
+  end.
+
 Definition insert_row (sch : schema) (cols : list string) (vals : list value) : ins_result :=
   let cols' := eff_cols sch cols in
   if negb (Nat.eqb (List.length cols') (List.length vals)) then InsErr ErrColCount
+  else if negb (cols_ok (map fd_name sch) cols' []) then InsErr ErrColumns
   else
     let r := build_row sch cols' vals in
     match first_invalid sch r with
